@@ -68,12 +68,12 @@ def cases(tier):
         total = 2 ** (r * c)
         for start in range(0, total, CHUNK):
             out.append({'part': 'B', 'rows': r, 'cols': c, 'start': start, 'stop': min(total, start + CHUNK)})
-    meshes = ['M1', 'M2', 'M3', 'M4', 'M5', 'M6', 'M8', 'M7', 'M9']
+    meshes = ['M1', 'M2', 'M3', 'M4', 'M5', 'M6', 'M8', 'M10', 'M7', 'M9']
     for mesh in meshes:
         nodes, faces = builders.mesh_library(mesh)
         n = len(faces)
-        for with_edges in (False, True, 'face_face', 'all'):
-            if with_edges in ('face_face', 'all') and n > 8 and tier == 'quick' and mesh != 'M7':
+        for with_edges in (False, True, 'face_face', 'all', 'fill0'):
+            if with_edges in ('face_face', 'all', 'fill0') and n > 8 and tier == 'quick' and mesh != 'M7':
                 continue
             if n <= 8 or tier == 'thorough':
                 total = 2 ** n
@@ -311,11 +311,14 @@ def run_part_m(case, rec):
         spec.update({'supplied': ['face_face'], 'fill': 'fillattr'})
     elif case['edges'] == 'all':
         spec.update({'supplied': list(builders.OPTIONAL_TABLES), 'start_index': 1})
+    elif case['edges'] == 'fill0':
+        # one-based integer tables whose "no node" marker is 0
+        spec.update({'start_index': 1, 'fill': 'fillattr', 'fill_value': 0, 'supplied': ['edge_node']})
     ds, truth = builders.build(spec)
     topology = ds.ems.topology
     fp = "C07/mesh-primitive"
     nface = len(truth.faces)
-    edge_rows = masked_rows(topology.face_edge_array) if case['edges'] in (True, 'all') else None
+    edge_rows = masked_rows(topology.face_edge_array) if case['edges'] in (True, 'all', 'fill0') else None
     if 'max_subset' in case:
         subsets = [set(c) for r in range(case['max_subset'] + 1) for c in itertools.combinations(range(nface), r)]
     else:
